@@ -36,6 +36,7 @@ type CLIWorld struct {
 	Disk0 []DiskEntry `json:"disk0"` // initial durable state
 	Sched SchedConfig `json:"sched"`
 	Real  bool        `json:"real,omitempty"` // run the unrewritten binary (no simulator record)
+	StdoutKind string `json:"stdout_kind,omitempty"` // "" = pipe, "file" = a regular file outside the sandbox
 	Env   []string    `json:"env,omitempty"`
 }
 
@@ -177,6 +178,14 @@ func (sc *Scratch) RunCLI(w *CLIWorld) (*CLIOutcome, error) {
 	var so, se bytes.Buffer
 	cmd.Stdout = &so
 	cmd.Stderr = &se
+	var outFile *os.File
+	if w.StdoutKind == "file" {
+		if outFile, err = os.Create(filepath.Join(base, "stdout.txt")); err != nil {
+			return nil, infraf("stdout file: %v", err)
+		}
+		defer outFile.Close()
+		cmd.Stdout = outFile
+	}
 	t0 := time.Now()
 	if err := cmd.Start(); err != nil {
 		return nil, infraf("start %s: %v", bin, err)
@@ -200,6 +209,11 @@ func (sc *Scratch) RunCLI(w *CLIWorld) (*CLIOutcome, error) {
 	}
 	out.WallMs = float64(time.Since(t0).Microseconds()) / 1000
 	out.Stdout, out.Stderr = so.Bytes(), se.Bytes()
+	if outFile != nil {
+		if data, err := os.ReadFile(filepath.Join(base, "stdout.txt")); err == nil {
+			out.Stdout = data
+		}
+	}
 	if out.After, err = snapshot(root, true); err != nil {
 		return nil, infraf("snapshot: %v", err)
 	}
